@@ -102,9 +102,100 @@ func byteOrderCall(info *types.Info, call *ast.CallExpr) (order, method string, 
 	return v.Name(), sel.Sel.Name, true
 }
 
+// u32Helper summarises an in-repo helper that transfers one 32-bit header word: reader helpers
+// func(r io.Reader) (uint32, …, error) whose success path is ReadFull(r, buf) … return order.Uint32(buf), and writer helpers
+// func(w io.Writer, v uint32) (…, error) whose success path is order.PutUint32(buf, v) … w.Write(buf).
+type u32Helper struct {
+	Order  string
+	Reader bool
+	ValArg int // writer: index of the uint32 argument
+}
+
+func summariseU32Helper(p *core.Program, u flow.FuncUnit) (u32Helper, bool) {
+	fd, ok := u.Node.(*ast.FuncDecl)
+	if !ok || fd.Recv != nil {
+		return u32Helper{}, false
+	}
+	info := u.Pkg.TypesInfo
+	var stream *types.Var
+	valArg := -1
+	idx := 0
+	for _, f := range fd.Type.Params.List {
+		for _, n := range f.Names {
+			v, _ := info.Defs[n].(*types.Var)
+			if v != nil && (isNamed(v.Type(), "io", "Writer") || isNamed(v.Type(), "io", "Reader")) {
+				stream = v
+			} else if v != nil && isUint32(v.Type()) {
+				valArg = idx
+			}
+			idx++
+		}
+	}
+	if stream == nil {
+		return u32Helper{}, false
+	}
+	reader := isNamed(stream.Type(), "io", "Reader")
+	g := flow.NewGraph(u)
+	nodes, _, okPath := g.SuccessPath()
+	if !okPath {
+		return u32Helper{}, false
+	}
+	isStream := func(e ast.Expr) bool { return identVar(info, e) == stream }
+	var filled *types.Var
+	order := ""
+	done := false
+	for _, n := range nodes {
+		ast.Inspect(n, func(m ast.Node) bool {
+			call, ok := m.(*ast.CallExpr)
+			if !ok {
+				return true
+			}
+			fn, _ := typeutil.Callee(info, call).(*types.Func)
+			if reader {
+				if fn != nil && fn.FullName() == "io.ReadFull" && len(call.Args) == 2 && isStream(call.Args[0]) {
+					filled = baseIdentVar(info, call.Args[1])
+				}
+				if o, meth, ok := byteOrderCall(info, call); ok && meth == "Uint32" && len(call.Args) == 1 && filled != nil && baseIdentVar(info, call.Args[0]) == filled {
+					if ret, isRet := n.(*ast.ReturnStmt); isRet && len(ret.Results) > 0 && ast.Unparen(ret.Results[0]) == ast.Expr(call) {
+						order, done = o, true
+					}
+				}
+			} else {
+				if o, meth, ok := byteOrderCall(info, call); ok && meth == "PutUint32" && len(call.Args) == 2 {
+					if valArg >= 0 && identVar(info, call.Args[1]) != nil && isUint32(identVar(info, call.Args[1]).Type()) {
+						filled = baseIdentVar(info, call.Args[0])
+						order = o
+					}
+				}
+				if sel, ok := ast.Unparen(call.Fun).(*ast.SelectorExpr); ok && isStream(sel.X) && sel.Sel.Name == "Write" && len(call.Args) == 1 && filled != nil && baseIdentVar(info, call.Args[0]) == filled {
+					done = true
+				}
+			}
+			return true
+		})
+	}
+	if !done || order == "" {
+		return u32Helper{}, false
+	}
+	return u32Helper{Order: order, Reader: reader, ValArg: valArg}, true
+}
+
 // sectionEvents interprets the success path of a proving-system I/O method as a sequence of section events.
 func sectionEvents(p *core.Program, u flow.FuncUnit, isWriter bool) (evs []ioEvent, problems []string) {
 	info := u.Pkg.TypesInfo
+	ix := indexFuncs(p)
+	helperOf := func(call *ast.CallExpr) (u32Helper, bool) {
+		fn, _ := typeutil.Callee(info, call).(*types.Func)
+		if fn == nil || !inRepoObj(fn) {
+			return u32Helper{}, false
+		}
+		hu, ok := ix.decls[fn.Origin()]
+		if !ok {
+			return u32Helper{}, false
+		}
+		return summariseU32Helper(p, hu)
+	}
+	pendingVal := map[*types.Var]string{} // local variable holding a header word read by a helper -> byte order
 	fd := u.Node.(*ast.FuncDecl)
 	var recv *types.Var
 	if fd.Recv != nil && len(fd.Recv.List) == 1 && len(fd.Recv.List[0].Names) == 1 {
@@ -139,6 +230,30 @@ func sectionEvents(p *core.Program, u flow.FuncUnit, isWriter bool) (evs []ioEve
 	bufPut := map[*types.Var]ioEvent{}
 	bufRead := map[*types.Var]bool{}
 	for _, n := range nodes {
+		// x, …, err := readHelper(r)   and later   F(x) = x
+		if as, ok := n.(*ast.AssignStmt); ok && len(as.Rhs) == 1 {
+			if call, ok := ast.Unparen(as.Rhs[0]).(*ast.CallExpr); ok {
+				if h, ok := helperOf(call); ok && h.Reader && len(as.Lhs) >= 1 {
+					if f, ok := recvField(info, as.Lhs[0], recv); ok {
+						evs = append(evs, ioEvent{Kind: "u32", Order: h.Order, Field: f, Pos: p.Pos(n.Pos())})
+					} else if v := identVar(info, as.Lhs[0]); v != nil {
+						pendingVal[v] = h.Order
+					}
+					continue
+				}
+			}
+			if len(as.Lhs) == 1 {
+				if v := identVar(info, as.Rhs[0]); v != nil {
+					if order, ok := pendingVal[v]; ok {
+						if f, ok := recvField(info, as.Lhs[0], recv); ok {
+							evs = append(evs, ioEvent{Kind: "u32", Order: order, Field: f, Pos: p.Pos(n.Pos())})
+							delete(pendingVal, v)
+							continue
+						}
+					}
+				}
+			}
+		}
 		// assignments F(x) = order.Uint32(buf)
 		if as, ok := n.(*ast.AssignStmt); ok && len(as.Lhs) == 1 && len(as.Rhs) == 1 {
 			if call, ok := ast.Unparen(as.Rhs[0]).(*ast.CallExpr); ok {
@@ -178,6 +293,13 @@ func sectionEvents(p *core.Program, u flow.FuncUnit, isWriter bool) (evs []ioEve
 				return true
 			}
 			full := fn.FullName()
+			// writeHelper(w, recv.F)
+			if h, ok := helperOf(call); ok && !h.Reader && h.ValArg >= 0 && h.ValArg < len(call.Args) {
+				if f, ok := recvField(info, call.Args[h.ValArg], recv); ok {
+					evs = append(evs, ioEvent{Kind: "u32", Order: h.Order, Field: f, Pos: p.Pos(call.Pos())})
+					return false
+				}
+			}
 			// w.Write(buf)
 			if sel, ok := ast.Unparen(call.Fun).(*ast.SelectorExpr); ok && isStream(sel.X) && fn.Name() == "Write" && len(call.Args) == 1 {
 				bv := baseIdentVar(info, call.Args[0])
